@@ -262,11 +262,17 @@ def decorators(repo, res):
     fn = d.func("_has_dimensions")
     res.fn(fn)
     quant, dim = fn.params
-    rets = [n for n in walk_no_nested(fn.node) if isinstance(n, ast.Return)]
-    ok = len(rets) == 1 and isinstance(rets[0].value, ast.Compare) and isinstance(rets[0].value.ops[0], ast.Eq) and {norm(rets[0].value.left), norm(rets[0].value.comparators[0])} == {"arg_dim", dim}
-    res.check(ok, "_has_dimensions:equality", fn.where(), "dimensions must be compared with == (identity would reject equal but rebuilt dimension expressions)", "arg_dim == dim", norm(rets[0].value) if rets else None, rid=r4)
+    # value flow with locals substituted: the normal path compares the value's own dimensions, the AttributeError path
+    # (no .units) compares `dimensionless`; both with ==
+    from engine.sem import summarise as _summ
+
+    vals = [x.value for x in _summ(fn) if x.kind == "return"]
+    own = {f"{quant}.units.dimensions == {dim}", f"{dim} == {quant}.units.dimensions"}
+    bare = {f"dimensionless == {dim}", f"{dim} == dimensionless"}
+    all_ret = all(x.kind == "return" for x in _summ(fn))
+    res.check(all_ret and bool(vals) and set(vals) <= own | bare and bool(set(vals) & own), "_has_dimensions:equality", fn.where(), "dimensions must be compared with == (identity would reject equal but rebuilt dimension expressions)", f"{quant}.units.dimensions == {dim}", vals, rid=r4)
     tr = [n for n in fn.body if isinstance(n, ast.Try)]
-    ok = len(tr) == 1 and norm(tr[0].body[0]) == f"arg_dim = {quant}.units.dimensions" and len(tr[0].handlers) == 1 and norm(tr[0].handlers[0].type) == "AttributeError" and norm(tr[0].handlers[0].body[0]) == "arg_dim = dimensionless"
+    ok = len(tr) == 1 and len(tr[0].handlers) == 1 and norm(tr[0].handlers[0].type) == "AttributeError" and bool(set(vals) & bare)
     res.check(ok, "_has_dimensions:unitless", fn.where(), "a value without units counts as dimensionless", rid=r4)
     # accepts: nested new_f
     acc = d.func("accepts")
